@@ -15,6 +15,7 @@ type Val struct {
 	S string // scalar term (scalar kinds)
 	F []Val  // components (struct fields / slice parts / tuple members / array leaf-arrays)
 	A *Addr  // non first-class address (pointer to a scalar field / element)
+	GhostArr bool // S is the SMT array of a ghost map field
 	NN bool  // pointer/interface known (or assumed, see DESIGN A2) to be non-nil
 
 	// static knowledge
